@@ -368,11 +368,12 @@ def seq_jobs(tier, outdir):
                 ("m3a2", 3, 2, 4, 3, (0, 1, 2), False, 1), ("m1a1", 1, 1, 3, 2, (0, 1, 2), False, 1),
                 ("inv-m3a1", 3, 1, 4, 2, (0, 1, 2), True, 2), ("m4a1", 4, 1, 5, 4, (0, 2), False, 2)]
     else:
-        plan = [("m2a1", 2, 1, 6, 3, (0, 1, 2), False, 40), ("m3a1", 3, 1, 6, 3, (0, 1, 2), False, 40),
+        plan = [("m2a1", 2, 1, 6, 2, (0, 1, 2), False, 24), ("m3a1", 3, 1, 6, 3, (0, 2), False, 12),
+                ("m2a1-5", 2, 1, 5, 3, (0, 1, 2), False, 6), ("m3a1-5", 3, 1, 5, 3, (0, 1, 2), False, 6),
                 ("m3a2", 3, 2, 5, 3, (0, 1, 2), False, 6), ("m1a1", 1, 1, 4, 2, (0, 1, 2), False, 1),
                 ("m2a2", 2, 2, 5, 3, (0, 1, 3), False, 6),
-                ("inv-m3a1", 3, 1, 5, 3, (0, 1, 2), True, 16), ("inv-m2a2", 2, 2, 4, 3, (0, 1, 2), True, 2),
-                ("m4a1", 4, 1, 6, 4, (0, 2), False, 12), ("m4a2", 4, 2, 5, 4, (0, 1, 3), False, 12)]
+                ("inv-m3a1", 3, 1, 5, 3, (0, 1, 2), True, 24), ("inv-m2a2", 2, 2, 4, 3, (0, 1, 2), True, 2),
+                ("m4a1", 4, 1, 6, 4, (0, 2), False, 16), ("m4a2", 4, 2, 5, 4, (0, 1, 3), False, 8)]
     for (label, me, ma, L, nid, dts, inv, nparts) in plan:
         for p in range(nparts):
             jobs.append((label, me, ma, L, nid, dts, inv, p, nparts, outdir))
@@ -410,10 +411,11 @@ def cache_scenarios(tier, dup_ok):
     return S
 
 
-def run_cache_scenario(sc, chooser, max_steps=3000):
+def run_cache_scenario(sc, chooser, max_steps=3000, keys=True):
     CTX.reset("c18-" + sc["name"], now=T0)
     _install_time_shim()
     run = sched.Run(_files(), chooser, max_steps=max_steps)
+    run.keys = keys
     cache = traced_cache_class()(sc["maxEntries"], sc["maxAge"])
     cache.lock = run.lock("cache.lock")
     tokens = {}
@@ -535,10 +537,11 @@ def make_key(sc, run):
     return key, cfg, int(key.d), int(key.n)
 
 
-def run_rsa_scenario(sc, chooser, max_steps=3000):
+def run_rsa_scenario(sc, chooser, max_steps=3000, keys=True):
     salt = sc.get("salt", 0)
     CTX.reset("c18-%s-%d" % (sc["name"], salt))
     run = sched.Run(_files(), chooser, max_steps=max_steps)
+    run.keys = keys
     key, cfg, d, n = make_key(sc, run)
     toy = sc["toy"]
     inputs = {}
@@ -624,11 +627,12 @@ def db_scenarios(tier):
     return S
 
 
-def run_db_scenario(sc, chooser, max_steps=3000, workdir=None):
+def run_db_scenario(sc, chooser, max_steps=3000, workdir=None, keys=True):
     from tlslite.verifierdb import VerifierDB
     vs = verifiers()
     CTX.reset("c18-" + sc["name"])
     run = sched.Run(_files(), chooser, max_steps=max_steps)
+    run.keys = keys
     if sc["disk"]:
         base = os.path.join(workdir or os.path.join(evidence.OUT, "C18"), "vdb-%d" % os.getpid())
         for suf in ("", ".dat", ".dir", ".bak", ".db"):
@@ -739,12 +743,13 @@ def _explore_worker(job):
     if mode == "dfs":
         st = sched.explore(lambda ch: runner(sc, ch), arg, on_run, max_runs=cap)
         stats["truncated"] = st["truncated"]
+        stats["complete_bound"] = st["complete_bound"]
         stats["cache_cuts"] = st["cached"]
         stats["states"] = st["states"]
     else:
         for i in range(arg):
             rnd = random.Random(repr((env.SEED, "c18", kind, sc["name"], i)))
-            on_run(runner(sc, sched.RandomChooser(rnd, p=rnd.choice([0.1, 0.3, 0.6]))))
+            on_run(runner(sc, sched.RandomChooser(rnd, p=rnd.choice([0.1, 0.3, 0.6])), keys=False))
         stats["truncated"] = False
     return {"kind": kind, "sc": sc, "mode": mode, "arg": arg, "stats": stats, "distinct": list(distinct.values())}
 
@@ -949,10 +954,30 @@ def run(tier):
     with Pool(14 if tier == "quick" else 16) as pool:
         tpool = ThreadPoolExecutor(max_workers=12)      # after the fork of the pool workers
         futs, dup = run_models(rep, tier, tpool)
+        # ---- 3. thread experiments are submitted first (longest jobs), the sequential clause shares the pool
+        cap = 2500 if tier == "quick" else 40000
+        nrand = 150 if tier == "quick" else 1500
+
+        def thread_jobs(scs_cache, with_rest=True):
+            jobs = []
+            for sc in scs_cache:
+                jobs.append(("cache", sc, "dfs", bound, cap))
+                jobs.append(("cache", sc, "random", nrand, None))
+            if with_rest:
+                for sc in rsa_scenarios(tier):
+                    # the PEM key costs ~0.1 s per execution: few schedules (the toy key runs the same lines)
+                    jobs.append(("rsa", sc, "dfs", bound, cap if sc["toy"] else cap // 25))
+                    jobs.append(("rsa", sc, "random", nrand if sc["toy"] else nrand // 5, None))
+                for sc in db_scenarios(tier):
+                    jobs.append(("db", sc, "dfs", bound, cap))
+                    jobs.append(("db", sc, "random", nrand, None))
+            jobs.sort(key=lambda j: (j[2] != "dfs", -sum(len(v) for v in j[1]["threads"].values())))
+            return jobs
+        t_phase = env.real_time()
+        thr_async = pool.map_async(_explore_worker, thread_jobs(cache_scenarios(tier, dup_ok=False)), chunksize=1)
         # ---- 2. sequential clause
         jobs = seq_jobs(tier, rep.outdir)
         seq_async = pool.map_async(_seq_worker, jobs, chunksize=1)
-        # ---- 3. thread experiments (scheduled in parallel with the sequential clause)
         seq_res = seq_async.get()
         dup_defect = False
         seq_total = 0
@@ -997,22 +1022,13 @@ def run(tier):
                            "matched_prefix": ex["matched"], "first_unmatched": ex["trace"][ex["matched"]]
                            if ex["matched"] < len(ex["trace"]) else None, "trace": ex["trace"], "count": g["n"]})
 
-        # ---- 3. threads
-        cap = 2500 if tier == "quick" else 30000
-        nrand = 150 if tier == "quick" else 1500
-        jobs = []
-        for sc in cache_scenarios(tier, dup_ok=not dup_defect):
-            jobs.append(("cache", sc, "dfs", bound, cap))
-            jobs.append(("cache", sc, "random", nrand, None))
-        for sc in rsa_scenarios(tier):
-            b = bound if sc["toy"] else bound - 1
-            jobs.append(("rsa", sc, "dfs", b, cap if sc["toy"] else cap // 3))
-            jobs.append(("rsa", sc, "random", nrand if sc["toy"] else nrand // 3, None))
-        for sc in db_scenarios(tier):
-            jobs.append(("db", sc, "dfs", bound, cap))
-            jobs.append(("db", sc, "random", nrand, None))
-        # biggest first
-        thr_res = pool.map(_explore_worker, jobs, chunksize=1)
+        rep.notes["phase_wall_s"] = {"sequential": round(env.real_time() - t_phase, 1)}
+        thr_res = thr_async.get()
+        if not dup_defect:
+            # storing an id twice works sequentially: then it must also work from two threads
+            dups = [x for x in cache_scenarios(tier, dup_ok=True) if x["name"] == "same-id-two-threads"]
+            thr_res += pool.map(_explore_worker, thread_jobs(dups, with_rest=False), chunksize=1)
+        rep.notes["phase_wall_s"]["threads"] = round(env.real_time() - t_phase, 1)
 
     rep.notes["same_id_thread_scenario_run"] = not dup_defect
     per_kind = {"cache": [], "rsa": [], "db": []}
@@ -1022,6 +1038,7 @@ def run(tier):
         sched_notes.append({"object": res["kind"], "scenario": res["sc"]["name"], "mode": res["mode"], "arg": res["arg"],
                             "schedules": st["runs"], "overlapped": st["overlapped"], "distinct_traces": len(res["distinct"]),
                             "outcomes": st["outcomes"], "truncated": st["truncated"], "max_preemptions": st["maxpre"],
+                            "complete_up_to_preemptions": st.get("complete_bound"),
                             "line_steps": st["lines"]})
         for c in st["crashes"]:
             rep.machinery_errors.append("harness thread crashed in %s: %s" % (res["sc"]["name"], c))
@@ -1046,6 +1063,18 @@ def run(tier):
         extra = {"cache": [st_tr], "rsa": [st_rsa], "db": []}[kind]
         rej = validate(rep, kind, traces + extra, "thr-" + kind, tpool, nb=6 if kind == "cache" else 3)
         rep.traces += len(traces) + len(extra)
+        # second pass: histories rejected by LockDiscipline alone are judged again without the
+        # shared-state access events - does ANY linearisation explain the results?
+        ld = [i for i, k in sorted(rej.items()) if i < len(traces) and k < len(traces[i]) and traces[i][k]["ev"] == "acc"]
+        stripped = []
+        for i in ld:
+            evs = [dict(e) for e in traces[i][1:] if e["ev"] != "acc"]
+            for e in evs:
+                e.pop("ret", None)
+            stripped.append(finish_trace(dict(traces[i][0]), evs, coalesce=False))
+        rej2 = validate(rep, kind, stripped, "thr2-" + kind, tpool, nb=3) if stripped else {}
+        rep.notes.setdefault("lock_discipline_rejections", {})[kind] = {
+            "histories": len(ld), "of_which_results_unexplained": len(rej2)}
         groups = {}
         for i, k in sorted(rej.items()):
             if i >= len(traces):
@@ -1056,27 +1085,31 @@ def run(tier):
                 rep.violation(key, {"kind": "stress", "matched_prefix": k, "first_unmatched": tr[k] if k < len(tr) else None})
                 continue
             res, d = items[i]
-            tr = d["trace"]
-            if kind == "cache":
-                shape, obs = classify_cache(tr, k)
-            else:
-                shape, obs = "-", classify_other(kind, tr, k)
-            if d["outcome"] != "ok":
-                obs = "%s (%s)" % (d["outcome"], obs)
-            gk = (res["sc"]["name"], shape, obs)
-            g = groups.setdefault(gk, {"n": 0, "ex": None})
-            g["n"] += d["n"]
-            if g["ex"] is None or len(d["schedule"]) < len(g["ex"][1]["schedule"]):
-                g["ex"] = (res, d, k)
+            todo = [(d["trace"], k)]
+            if i in ld and ld.index(i) in rej2:
+                j = ld.index(i)
+                todo.append((stripped[j], rej2[j]))
+            for (tr, kk) in todo:
+                if kind == "cache":
+                    shape, obs = classify_cache(tr, kk)
+                else:
+                    shape, obs = "-", classify_other(kind, tr, kk)
+                if d["outcome"] != "ok":
+                    obs = "%s (%s)" % (d["outcome"], obs)
+                gk = (res["sc"]["name"], shape, obs)
+                g = groups.setdefault(gk, {"n": 0, "ex": None})
+                g["n"] += d["n"]
+                if g["ex"] is None or len(d["schedule"]) < len(g["ex"][1]["schedule"]):
+                    g["ex"] = (res, d, kk, tr)
         for (scn, shape, obs), g in sorted(groups.items()):
-            res, d, k = g["ex"]
+            res, d, k, tr = g["ex"]
             key = {"object": {"cache": "SessionCache", "rsa": "Python_RSAKey", "db": "VerifierDB"}[kind],
                    "clause": "threads", "scenario": scn, "observed": obs}
             if kind == "cache":
                 key["shape"] = shape
             rep.violation(key, {"kind": kind, "scenario": res["sc"], "schedule": d["schedule"], "matched_prefix": k,
-                                "first_unmatched": d["trace"][k] if k < len(d["trace"]) else None,
-                                "trace": d["trace"], "schedules_with_this_outcome": g["n"]})
+                                "first_unmatched": tr[k] if k < len(tr) else None,
+                                "trace": tr, "schedules_with_this_outcome": g["n"]})
         for (res, d) in items[:1]:
             rep.sample({"object": kind, "scenario": res["sc"]["name"], "schedule": d["schedule"][:60],
                         "events_head": d["trace"][:14], "n_events": len(d["trace"])})
